@@ -126,9 +126,14 @@ def gen_session(rng, tier, for_crash=False):
     config = [k for k, v in (("title", title), ("box", box), ("fmt", fmt), ("natoms", declared)) if v]
     rng.shuffle(config)
     box_late = bool(box) and rng.random() < 0.2
+    chunks = None
+    if n >= 2 and rng.random() < 0.25:
+        # the records arrive in several pieces: writelines() chunks and single writeline() calls in any mixture
+        cuts = sorted(rng.sample(range(1, n), rng.randint(1, min(4, n - 1))))
+        chunks = [[b - a, rng.choice(["writelines", "writelines", "writeline"])] for a, b in zip([0] + cuts, cuts + [n])]
     return {"title": title, "box": box, "fmt": fmt, "declared": declared, "config": config,
             "box_late": box_late, "records": records, "use_with": rng.random() < 0.5,
-            "writelines": rng.random() < 0.3, "tuple_records": rng.random() < 0.3}
+            "writelines": rng.random() < 0.3, "tuple_records": rng.random() < 0.3, "chunks": chunks}
 
 
 def generate(rng, tier, focus):
@@ -174,7 +179,7 @@ def simplify(trace):
                 t["session"] = dict(s, records=part)
                 yield t
     for key, val in (("title", None), ("box", None), ("declared", False), ("box_late", False),
-                     ("use_with", False), ("writelines", False), ("tuple_records", False)):
+                     ("use_with", False), ("writelines", False), ("tuple_records", False), ("chunks", None)):
         if s.get(key):
             ns = dict(s)
             ns[key] = val
@@ -255,7 +260,18 @@ def run_session(session, path, seam, ctx, prop):
         elif item == "natoms":
             f.natoms = len(session["records"])
     recs = [tuple(r) if session.get("tuple_records") else list(r) for r in session["records"]]
-    if session["writelines"]:
+    if session.get("chunks") and sum(c[0] for c in session["chunks"]) == len(recs):
+        pos = 0
+        for size, how in session["chunks"]:
+            part = recs[pos:pos + size]
+            pos += size
+            if how == "writelines":
+                f.writelines(part)
+            else:
+                for r in part:
+                    f.writeline(r)
+        ctx.probe("records_written_in_chunks")
+    elif session["writelines"]:
         f.writelines(recs)
     else:
         for r in recs:
